@@ -24,6 +24,9 @@ func lookupFlow[T any](urlTree *URLTree[T], url string) lookupFlowNodeResult[T] 
 	flows := []T{}
 	index := 0
 
+	// consumedAll stays true only if every part of the URL was matched by a
+	// node; a break on the last part must not count as an exact match.
+	consumedAll := true
 	var part urlPart
 	for index, part = range splitURL {
 		log.Trace().Msgf("lookupFlowNodeResult::Looking up part %v", part)
@@ -44,12 +47,14 @@ func lookupFlow[T any](urlTree *URLTree[T], url string) lookupFlowNodeResult[T] 
 			continue
 		}
 
+		consumedAll = false
 		break
 	}
 
-	if index == lookUpLength && currentNode.hasValue() && currentNode.WildcardChild == nil {
+	if consumedAll && index == lookUpLength && currentNode.hasValue() &&
+		currentNode.WildcardChild == nil {
 		flows = append(flows, *currentNode.Value)
-	} else if index == lookUpLength && part.IsPartOfHost &&
+	} else if consumedAll && index == lookUpLength && part.IsPartOfHost &&
 		currentNode.WildcardChild != nil && currentNode.WildcardChild.hasValue() {
 		// case where url is host without path and filter ends with a wildcard, for example:
 		// url: "host.com", filter: "host.com/*"
